@@ -1,7 +1,7 @@
 (* C14 — property theorems (statements only; proofs by [exact]). *)
 From Coq Require Import Reals List Arith.
 From Coquelicot Require Import Coquelicot.
-From OMV Require Import Expr.Expr Expr.ExprProofs C14.Model C14.Proofs.
+From OMV Require Import Expr.Expr Expr.ExprProofs C14.Model C14.Proofs C14.ProofsCS.
 Import ListNotations.
 Open Scope R_scope.
 
@@ -46,3 +46,42 @@ Theorem C14_evalQ_sound : forall e rq r,
   evalQ rq e = Some r -> evalR (env_of_Q rq) e = Q2R r /\ defined (env_of_Q rq) e.
 Proof. exact evalQ_sound. Qed.
 Print Assumptions C14_evalQ_sound.
+
+(* ---- the complex-step mechanism of compute_partials, on the polynomial / rational fragment
+   (variables, constants, + - * /, integer powers), for every expression, point and variable ---- *)
+
+(* at h = 0 the complex evaluation is the real value, and the real part is stationary in h *)
+Theorem C14_cs_real_part : forall e x v,
+  cs_frag e = true -> defined x e ->
+  evalC (cs_env x v 0) e = (evalR x e, 0) /\
+  is_derive (fun h => fst (evalC (cs_env x v h) e)) 0 0.
+Proof. exact cs_real_part. Qed.
+Print Assumptions C14_cs_real_part.
+
+(* the imaginary part of e(x + i h e_v) has slope exactly D_v e at h = 0 *)
+Theorem C14_cs_imag_derive : forall e x v,
+  cs_frag e = true -> defined x e ->
+  is_derive (fun h => snd (evalC (cs_env x v h) e)) 0 (evalR x (D v e)).
+Proof. exact cs_imag_derive. Qed.
+Print Assumptions C14_cs_imag_derive.
+
+(* what compute_partials stores, imag / h, converges to the exact partial derivative *)
+Theorem C14_cs_quotient_limit : forall e x v,
+  cs_frag e = true -> defined x e ->
+  forall eps, 0 < eps -> exists delta : posreal, forall h,
+    h <> 0 -> Rabs h < delta -> Rabs (cs_quotient e x v h - evalR x (D v e)) < eps.
+Proof. exact cs_quotient_limit. Qed.
+Print Assumptions C14_cs_quotient_limit.
+
+(* real part even, imaginary part odd in the step (any expression): imag / h is even in h, so
+   its error has no first-order term *)
+Theorem C14_cs_parity : forall e x v h,
+  fst (evalC (cs_env x v (- h)) e) = fst (evalC (cs_env x v h) e) /\
+  snd (evalC (cs_env x v (- h)) e) = - snd (evalC (cs_env x v h) e).
+Proof. exact cs_parity. Qed.
+Print Assumptions C14_cs_parity.
+
+Theorem C14_cs_quotient_even : forall e x v h,
+  h <> 0 -> cs_quotient e x v (- h) = cs_quotient e x v h.
+Proof. exact cs_quotient_even. Qed.
+Print Assumptions C14_cs_quotient_even.
